@@ -302,12 +302,16 @@ fn destroy_request(abi: &Abi, rng: &mut Rng) -> Vec<u8> {
 
 /// The second session of a case: optionally DESTROY, then an INIT that offers something else.
 fn second<F: FileSystem + Sync>(abi: &Abi, rng: &mut Rng, server: &Server<F>, pair: &SeqPair, k: &Value) -> Value {
-    let how = if k["major"] == "eq" { *rng.pick(&["same", "none", "full", "compl", "none", "compl"]) } else { "same" };
-    let destroyed = rng.chance(1, 2);
+    // after a major-version mismatch the client comes back with a 7.x INIT (the second step of the handshake)
+    let how = if k["major"] == "eq" { *rng.pick(&["same", "none", "full", "compl", "none", "compl"]) } else if k["major"] == "gt" { *rng.pick(&["none", "full"]) } else { "same" };
+    let destroyed = k["major"] == "eq" && rng.chance(1, 2);
     if destroyed {
         let _ = run_fusedev_hook(server, &destroy_request(abi, rng), 4096, None, pair, None);
     }
-    let k2 = second_case(k, how);
+    let mut k2 = second_case(k, how);
+    if k["major"] == "gt" {
+        k2["major"] = json!("eq");
+    }
     let (r2, want2) = negotiate(abi, rng, server, pair, &k2);
     json!({"how": how, "destroyed": destroyed, "k": k2, "r": r2, "want": want2})
 }
@@ -324,10 +328,14 @@ fn main() {
     let pair = SeqPair::new();
     let no_t = json!({"no_open": false, "no_opendir": false, "writeback": false, "killpriv": false, "dax": false, "na": []});
     for (i, line) in cases.lines().enumerate() {
-        if line.trim().is_empty() || (i + seed as usize) % stride != 0 {
+        if line.trim().is_empty() {
             continue;
         }
         let case: Value = serde_json::from_str(line).expect("case");
+        // the few version-mismatch cases are always replayed, the large capability product is sampled
+        if case["k"]["major"] == "eq" && (i + seed as usize) % stride != 0 {
+            continue;
+        }
         let k = &case["k"];
         let stack = k["stack"].as_str().unwrap();
         let dir = format!("{work}/t");
@@ -348,7 +356,7 @@ fn main() {
                 let (r, w) = negotiate(&abi, &mut rng, &server, &pair, k);
                 let t = if r["status"] == "ok" && k["major"] == "eq" { probe(&*fs, &dir) } else { no_t.clone() };
                 let mut s = second(&abi, &mut rng, &server, &pair, k);
-                s["t"] = if r["status"] == "ok" && k["major"] == "eq" { probe(&*fs, &dir) } else { no_t.clone() };
+                s["t"] = if (r["status"] == "ok" && k["major"] == "eq") || (s["r"]["status"] == "ok" && s["k"]["major"] == "eq") { probe(&*fs, &dir) } else { no_t.clone() };
                 (r, w, s, t)
             }
             "vfs_pt" => {
@@ -375,7 +383,7 @@ fn main() {
                 let mut t = if r["status"] == "ok" && k["major"] == "eq" { probe(&*vfs, &dir) } else { no_t.clone() };
                 t["vo"] = snapshot(&vfs);
                 let mut s = second(&abi, &mut rng, &server, &pair, k);
-                s["t"] = if r["status"] == "ok" && k["major"] == "eq" { probe(&*vfs, &dir) } else { no_t.clone() };
+                s["t"] = if (r["status"] == "ok" && k["major"] == "eq") || (s["r"]["status"] == "ok" && s["k"]["major"] == "eq") { probe(&*vfs, &dir) } else { no_t.clone() };
                 s["t"]["vo"] = snapshot(&vfs);
                 // a backend mounted now is initialised with what is in force
                 let late = ScriptedFs::new("late");
@@ -433,7 +441,7 @@ fn main() {
                 let live = r["status"] == "ok" && k["major"] == "eq";
                 let t = if live { oprobe() } else { no_t.clone() };
                 let mut s = second(&abi, &mut rng, &server, &pair, k);
-                s["t"] = if live { oprobe() } else { no_t.clone() };
+                s["t"] = if live || (s["r"]["status"] == "ok" && s["k"]["major"] == "eq") { oprobe() } else { no_t.clone() };
                 (r, w, s, t)
             }
         };
